@@ -374,4 +374,15 @@ PLANS["C09"] = {
     "assumptions": ["error class = egglog::Error variant (ParseError, TypeError(s), NoSuchRuleset, CombinedRulesetError, Shadowing, RuleAlreadyExists, DesugarError, UnsupportedProofCommand, SubsumeMergeError, Pop are 'rejected before execution')"],
 }
 
+PLANS["C13"] = {
+    "jobs": simple_jobs("c13", 1600, 60000, par_n=(150, 6000)),
+    "level": "exploration",
+    "technique": "history monitor with row identities: sticky-flag invariant after every command, probe rules / check / extraction walked on clones, event-locality diff of raw dumps",
+    "level_text": "Every row ever observed with the subsumed flag is remembered as a ground term that evaluates to it; after every later command (rebuilds, congruent merges in both orders, re-insertions, push/pop, rule-head subsumes, :subsume rewrites; serial and 4-thread/cut-off-0) the term must still evaluate to a flagged row. On clones, probe rules must match every unflagged row and no flagged row, check must succeed on flagged rows, and every node of an extracted term must rest on an unflagged row. Subsume and delete events may remove or re-flag nothing but their target row; a deleted row must be gone.",
+    "level_note": "Flags are read through Enode.subsumed of the public read API; containers are not generated here (C14 covers them).",
+    "floors": {"quick": {"sticky_checks": 10000, "probe_row_checks": 20000, "delete_events": 200, "histories_flag_survived_rebuild": 400},
+               "thorough": {"sticky_checks": 500000, "probe_row_checks": 1000000, "delete_events": 10000, "histories_flag_survived_rebuild": 20000}},
+    "assumptions": ["dump via public read API"],
+}
+
 NOT_APPLICABLE = {}
